@@ -9,7 +9,7 @@ import shutil
 import sys
 import tempfile
 
-REPO = os.environ.get('VERIF_REPO', '/repo')
+REPO = os.environ.get('VERIF_REPO') or '/repo'
 VERIF = os.path.dirname(os.path.dirname(os.path.abspath(__file__)))
 GUARD = 'CARBON_VERIF'
 
